@@ -54,6 +54,19 @@ Proof.
   - f_equal. unfold zlen. cbn [length]. lia.
 Qed.
 
+Section LexGenR.
+Variables (fd0 : Z) (ffd0 fcs0 : list Z) (bs0 : list (N * Z)).
+Local Notation LX := (Requery.LX fd0 ffd0 fcs0).
+Local Notation ignore_ws_nonws := (Requery.ignore_ws_nonws fd0 ffd0 fcs0).
+Local Notation ignore_ws_nil := (Requery.ignore_ws_nil fd0 ffd0 fcs0).
+Local Notation LX_pos := (Requery.LX_pos fd0 ffd0 fcs0).
+Local Notation step_root := (Requery.step_root fd0 ffd0 fcs0).
+Local Notation step_seg_open := (Requery.step_seg_open fd0 ffd0 fcs0 bs0).
+Local Notation step_seg_eof := (Requery.step_seg_eof fd0 ffd0 fcs0 bs0).
+Local Notation step_bracket_quote := (Requery.step_bracket_quote fd0 ffd0 fcs0).
+Local Notation step_bracket_close := (Requery.step_bracket_close fd0 ffd0 fcs0 bs0).
+Local Notation step_bracket_index := (Requery.step_bracket_index fd0 ffd0 fcs0).
+
 (* --- more single steps of the lexer ------------------------------------------------------------------------------------ *)
 Lemma ws_match1 c r : in_ranges c ws_ranges = false -> re_match RE_WHITESPACE (32%N :: c :: r) = Some 1.
 Proof.
@@ -106,11 +119,11 @@ Proof.
   rewrite app_nil_r, rev_involutive. replace (q + 1 - 1 + zlen (d :: ds')) with (q + zlen (d :: ds')) by lia. reflexivity.
 Qed.
 
-Lemma step_seg_dotdot r p T : lex_step SSegment (LX (46%N :: 46%N :: r) [] p p [] T)
-  = LNext SDescendant (LX r [] (p + 1 + 1) (p + 1 + 1) [] (tk T_DOUBLE_DOT [46%N; 46%N] p :: T)).
+Lemma step_seg_dotdot r p T : lex_step SSegment (LX (46%N :: 46%N :: r) [] p p bs0 T)
+  = LNext SDescendant (LX r [] (p + 1 + 1) (p + 1 + 1) bs0 (tk T_DOUBLE_DOT [46%N; 46%N] p :: T)).
 Proof. cbn [lex_step]. rewrite ignore_ws_nonws by reflexivity. reflexivity. Qed.
-Lemma step_desc_open r p T : lex_step SDescendant (LX (91%N :: r) [] p p [] T)
-  = LNext SBracket (LX r [] (p + 1) (p + 1) [(91%N, p + 1 - 1)] (tk T_LBRACKET [91%N] p :: T)).
+Lemma step_desc_open r p T : lex_step SDescendant (LX (91%N :: r) [] p p bs0 T)
+  = LNext SBracket (LX r [] (p + 1) (p + 1) ((91%N, p + 1 - 1) :: bs0) (tk T_LBRACKET [91%N] p :: T)).
 Proof. reflexivity. Qed.
 
 (* --- one selector ------------------------------------------------------------------------------------------------------------ *)
@@ -150,29 +163,29 @@ Proof. cbn [sel_str]. rewrite canonical_string_is_norm_name. reflexivity. Qed.
 
 Lemma lex_sel s c r p i0 T : sel_ok s -> (c = 44%N \/ c = 93%N) ->
   exists n, (n <= length (sel_str s) + 2)%nat /\
-    lex_steps n SBracket (LX (sel_str s ++ c :: r) [] p p [(91%N, i0)] T)
-    = LNext SBracket (LX (c :: r) [] (p + zlen (sel_str s)) (p + zlen (sel_str s)) [(91%N, i0)] (rev (sel_toks s p) ++ T)).
+    lex_steps n SBracket (LX (sel_str s ++ c :: r) [] p p ((91%N, i0) :: bs0) T)
+    = LNext SBracket (LX (c :: r) [] (p + zlen (sel_str s)) (p + zlen (sel_str s)) ((91%N, i0) :: bs0) (rev (sel_toks s p) ++ T)).
 Proof.
   intros Hok Hc. assert (Hcd : isd c = false) by (destruct Hc as [-> | ->]; reflexivity).
   destruct s as [k|i|a b st| |e]; cbn [sel_ok] in Hok; [| | | |contradiction].
   - (* name *) rewrite sel_str_name. set (body := flat_map norm_char k).
-    set (l1 := LX (body ++ 39%N :: c :: r) [39%N] p (p + 1) [(91%N, i0)] T).
+    set (l1 := LX (body ++ 39%N :: c :: r) [39%N] p (p + 1) ((91%N, i0) :: bs0) T).
     destruct (lex_string_literal 39 false l1 body (c :: r) (or_introl eq_refl) eq_refl (lex_ok_norm k Hok)) as [n [Hn Hs]].
     exists (1 + n)%nat. split; [cbn [length]; rewrite app_length; cbn [length]; lia|].
     cbn [app]. rewrite <- app_assoc. cbn [app].
     rewrite (lex_steps_app 1 n _ _ _ _ (eq_trans (lex_steps_1 _ _) (step_bracket_quote _ p _ _))). fold l1. rewrite Hs.
     change (after false) with SBracket. f_equal. cbn [sel_toks rev app]. fold body.
-    transitivity (LX (c :: r) [] (p + 1 + zlen body + 1) (p + 1 + zlen body + 1) [(91%N, i0)] (tk T_SQ_STRING body (p + 1) :: T)); [reflexivity|].
+    transitivity (LX (c :: r) [] (p + 1 + zlen body + 1) (p + 1 + zlen body + 1) ((91%N, i0) :: bs0) (tk T_SQ_STRING body (p + 1) :: T)); [reflexivity|].
     apply LX_pos. unfold zlen. cbn [length]. rewrite app_length. cbn [length]. lia.
   - (* index *) exists 1%nat. split; [lia|]. rewrite lex_steps_1. cbn [sel_str sel_toks rev app]. apply (step_bracket_int _ i); [apply repr_int_ok | exact Hcd].
   - (* slice *) cbn [sel_str sel_toks]. rewrite opt_step_text. set (ta := opt_int_str a []). set (tb := opt_int_str b []). set (tc := repr_int (step1 st)).
     assert (Htxt : (ta ++ [58%N] ++ tb ++ [58%N] ++ tc) ++ c :: r = ta ++ 58%N :: tb ++ 58%N :: tc ++ c :: r) by (rewrite <- !app_assoc; reflexivity).
     rewrite Htxt.
-    destruct (lex_opt_int a 58%N (tb ++ 58%N :: tc ++ c :: r) p [(91%N, i0)] T eq_refl) as (n1 & Hn1 & E1). fold ta in E1.
-    pose proof (step_bracket_char 58%N T_COLON (tb ++ 58%N :: tc ++ c :: r) (p + zlen ta) [(91%N, i0)] (rev (opt_tok a p) ++ T) ltac:(right; right; split; reflexivity)) as E2.
-    destruct (lex_opt_int b 58%N (tc ++ c :: r) (p + zlen ta + 1) [(91%N, i0)] (tk T_COLON [58%N] (p + zlen ta) :: rev (opt_tok a p) ++ T) eq_refl) as (n3 & Hn3 & E3). fold tb in E3.
-    pose proof (step_bracket_char 58%N T_COLON (tc ++ c :: r) (p + zlen ta + 1 + zlen tb) [(91%N, i0)] (rev (opt_tok b (p + zlen ta + 1)) ++ tk T_COLON [58%N] (p + zlen ta) :: rev (opt_tok a p) ++ T) ltac:(right; right; split; reflexivity)) as E4.
-    pose proof (step_bracket_int tc (step1 st) c r (p + zlen ta + 1 + zlen tb + 1) [(91%N, i0)] (tk T_COLON [58%N] (p + zlen ta + 1 + zlen tb) :: rev (opt_tok b (p + zlen ta + 1)) ++ tk T_COLON [58%N] (p + zlen ta) :: rev (opt_tok a p) ++ T) (repr_int_ok _) Hcd) as E5.
+    destruct (lex_opt_int a 58%N (tb ++ 58%N :: tc ++ c :: r) p ((91%N, i0) :: bs0) T eq_refl) as (n1 & Hn1 & E1). fold ta in E1.
+    pose proof (step_bracket_char 58%N T_COLON (tb ++ 58%N :: tc ++ c :: r) (p + zlen ta) ((91%N, i0) :: bs0) (rev (opt_tok a p) ++ T) ltac:(right; right; split; reflexivity)) as E2.
+    destruct (lex_opt_int b 58%N (tc ++ c :: r) (p + zlen ta + 1) ((91%N, i0) :: bs0) (tk T_COLON [58%N] (p + zlen ta) :: rev (opt_tok a p) ++ T) eq_refl) as (n3 & Hn3 & E3). fold tb in E3.
+    pose proof (step_bracket_char 58%N T_COLON (tc ++ c :: r) (p + zlen ta + 1 + zlen tb) ((91%N, i0) :: bs0) (rev (opt_tok b (p + zlen ta + 1)) ++ tk T_COLON [58%N] (p + zlen ta) :: rev (opt_tok a p) ++ T) ltac:(right; right; split; reflexivity)) as E4.
+    pose proof (step_bracket_int tc (step1 st) c r (p + zlen ta + 1 + zlen tb + 1) ((91%N, i0) :: bs0) (tk T_COLON [58%N] (p + zlen ta + 1 + zlen tb) :: rev (opt_tok b (p + zlen ta + 1)) ++ tk T_COLON [58%N] (p + zlen ta) :: rev (opt_tok a p) ++ T) (repr_int_ok _) Hcd) as E5.
     assert (Htc : (1 <= length tc)%nat) by (destruct (repr_int_ok (step1 st)) as [Hne _]; fold tc in Hne; destruct tc; [congruence | cbn [length]; lia]).
     exists (n1 + (1 + (n3 + (1 + 1))))%nat. split; [rewrite !app_length; cbn [length]; lia|].
     rewrite (lex_steps_app n1 _ _ _ _ _ E1). rewrite (lex_steps_app 1 _ _ _ _ _ (eq_trans (lex_steps_1 _ _) E2)).
@@ -217,8 +230,8 @@ Proof. intros H. cbn [lex_steps]. rewrite (sbracket_ws c r p bs T H). reflexivit
 
 Lemma lex_sels : forall ss r p i0 T, ss <> [] -> Forall sel_ok ss ->
   exists n, (1 <= n)%nat /\ (n <= length (sels_text ss) + 2 * length ss)%nat /\
-    lex_steps n SBracket (LX (sels_text ss ++ 93%N :: r) [] p p [(91%N, i0)] T)
-    = LNext SBracket (LX (93%N :: r) [] (p + zlen (sels_text ss)) (p + zlen (sels_text ss)) [(91%N, i0)] (rev (sels_toks ss p) ++ T)).
+    lex_steps n SBracket (LX (sels_text ss ++ 93%N :: r) [] p p ((91%N, i0) :: bs0) T)
+    = LNext SBracket (LX (93%N :: r) [] (p + zlen (sels_text ss)) (p + zlen (sels_text ss)) ((91%N, i0) :: bs0) (rev (sels_toks ss p) ++ T)).
 Proof.
   induction ss as [|s rest IH]; intros r p i0 T Hne Hok; [congruence|]. inversion Hok as [|s0 l0 Hs Hrest]; subst.
   destruct rest as [|s2 rest'].
@@ -231,7 +244,7 @@ Proof.
     { unfold sels_text. cbn [map str_join flat_map]. cbn [app]. reflexivity. }
     rewrite Htxt. rewrite <- app_assoc. cbn [app].
     destruct (lex_sel s 44%N (32%N :: sels_text (s2 :: rest') ++ 93%N :: r) p i0 T Hs (or_introl eq_refl)) as (n1 & Hn1 & E1).
-    pose proof (step_bracket_char 44%N T_COMMA (32%N :: sels_text (s2 :: rest') ++ 93%N :: r) (p + zlen (sel_str s)) [(91%N, i0)] (rev (sel_toks s p) ++ T) ltac:(right; left; split; reflexivity)) as E2.
+    pose proof (step_bracket_char 44%N T_COMMA (32%N :: sels_text (s2 :: rest') ++ 93%N :: r) (p + zlen (sel_str s)) ((91%N, i0) :: bs0) (rev (sel_toks s p) ++ T) ltac:(right; left; split; reflexivity)) as E2.
     destruct (IH r (p + zlen (sel_str s) + 1 + 1) i0 (tk T_COMMA [44%N] (p + zlen (sel_str s)) :: rev (sel_toks s p) ++ T) ltac:(discriminate) Hrest) as (n3 & Hn3a & Hn3b & E3).
     destruct n3 as [|n3']; [lia|].
     assert (Hhd : exists c r0, sels_text (s2 :: rest') = c :: r0 /\ in_ranges c ws_ranges = false).
@@ -268,8 +281,8 @@ Qed.
 
 Lemma lex_seg g r p T : seg_ok g ->
   exists n, (1 <= n)%nat /\ (n <= 3 * length (seg_str g))%nat /\
-    lex_steps n SSegment (LX (seg_str g ++ r) [] p p [] T)
-    = LNext SSegment (LX r [] (p + zlen (seg_str g)) (p + zlen (seg_str g)) [] (rev (seg_toks2 g p) ++ T)).
+    lex_steps n SSegment (LX (seg_str g ++ r) [] p p bs0 T)
+    = LNext SSegment (LX r [] (p + zlen (seg_str g)) (p + zlen (seg_str g)) bs0 (rev (seg_toks2 g p) ++ T)).
 Proof.
   intros [Hne Hok]. rewrite seg_str_text.
   pose proof sels_text_len as Hlen.
@@ -300,8 +313,8 @@ Fixpoint q_toks (q : list seg) (p : Z) : list token :=
 
 Lemma lex_query : forall q p T, Forall seg_ok q ->
   exists n, (1 <= n)%nat /\ (n <= 3 * length (flat_map seg_str q) + 1)%nat /\
-    lex_steps n SSegment (LX (flat_map seg_str q) [] p p [] T)
-    = LStop (LX [] [] (p + zlen (flat_map seg_str q)) (p + zlen (flat_map seg_str q)) [] (rev (q_toks q p) ++ T)).
+    lex_steps n SSegment (LX (flat_map seg_str q) [] p p bs0 T)
+    = LStop (LX [] [] (p + zlen (flat_map seg_str q)) (p + zlen (flat_map seg_str q)) bs0 (rev (q_toks q p) ++ T)).
 Proof.
   induction q as [|g q IH]; intros p T H.
   - exists 1%nat. cbn [flat_map length q_toks rev app]. repeat split; try lia. rewrite lex_steps_1, step_seg_eof.
@@ -316,14 +329,16 @@ Proof.
     reflexivity.
 Qed.
 
+End LexGenR.
+
 Theorem tokenize_str q : Forall seg_ok q -> m_tokenize (m_str q) = Ok (tk T_ROOT [36%N] 0 :: q_toks q 1).
 Proof.
   intros H. unfold m_tokenize, m_str.
-  destruct (lex_query q 1 [tk T_ROOT [36%N] 0] H) as (n & Hn & Hn1 & E).
+  destruct (lex_query 0 [] [] [] q 1 [tk T_ROOT [36%N] 0] H) as (n & Hn & Hn1 & E).
   assert (Hrun : lex_steps (1 + n) SRoot (lexer_init (36%N :: flat_map seg_str q))
-                 = LStop (LX [] [] (1 + zlen (flat_map seg_str q)) (1 + zlen (flat_map seg_str q)) [] (rev (q_toks q 1) ++ [tk T_ROOT [36%N] 0]))).
-  { change (lexer_init (36%N :: flat_map seg_str q)) with (LX (36%N :: flat_map seg_str q) [] 0 0 [] []).
-    rewrite (lex_steps_app 1 n _ _ _ _ (eq_trans (lex_steps_1 _ _) (step_root _))). exact E. }
+                 = LStop (LX 0 [] [] [] [] (1 + zlen (flat_map seg_str q)) (1 + zlen (flat_map seg_str q)) [] (rev (q_toks q 1) ++ [tk T_ROOT [36%N] 0]))).
+  { change (lexer_init (36%N :: flat_map seg_str q)) with (LX 0 [] [] (36%N :: flat_map seg_str q) [] 0 0 [] []).
+    rewrite (lex_steps_app 1 n _ _ _ _ (eq_trans (lex_steps_1 _ _) (step_root 0 [] [] _))). exact E. }
   assert (Hle : (1 + n <= lex_fuel (36%N :: flat_map seg_str q))%nat) by (unfold lex_fuel; cbn [length]; lia).
   rewrite (lex_run_ge (1 + n) _ _ _ _ Hle Hrun). cbn [bind l_toks l_bs LX].
   assert (Hrev : exists t ts, rev (q_toks q 1) ++ [tk T_ROOT [36%N] 0] = t :: ts /\ ty t = T_EOF).
